@@ -165,6 +165,8 @@ class SimTransport(asyncio.Transport):
         self.stalled = False
         self.buffer = bytearray()
         self.proto_paused = False
+        self._mutable_written: list = []
+        self._mutation_logged = False
         self.conn_id = getattr(getattr(proto, "_connection", None), "_vf_id", None)
         env.log("transport_new", tr=self.idx, conn=self.conn_id, sock=sock.idx)
 
@@ -175,6 +177,14 @@ class SimTransport(asyncio.Transport):
         if not data:
             return
         b = bytes(data)
+        # a transport may keep the very object it was given until the kernel takes the bytes (it does whenever the
+        # socket is congested): a caller that hands over a mutable buffer and changes it later corrupts its own stream
+        for obj_, was_ in self._mutable_written:
+            if bytes(obj_) != was_ and not self._mutation_logged:
+                self._mutation_logged = True
+                self.env.log("written_buffer_changed", tr=self.idx, n=len(was_))
+        if isinstance(data, bytearray) or (isinstance(data, memoryview) and not data.readonly):
+            self._mutable_written.append((data, b))
         self.n_writes += 1
         dead = self.sock.closed  # the connection already closed the socket under the transport
         self.env.log("write", tr=self.idx, data=b, closing=self.closing, dead=dead)
